@@ -109,6 +109,13 @@ func (c *Ctx) ruleNoStateCopies(rule string) {
 					}
 					if t := info.TypeOf(r); isState(t) && !fresh(r) {
 						report(x, "assignment", t)
+					} else if isState(t) {
+						// a fresh value stored over an existing object (*p = T{}, x.f = T{}): the atomics / locks of a
+						// published object are overwritten with plain stores
+						if _, local := ast.Unparen(x.Lhs[i]).(*ast.Ident); !local {
+							c.Rep.fail(rule, short, "whole-struct overwrite of "+qualTypeName(t), c.P.pos(x),
+								short+" overwrites an existing "+types.TypeString(t, nil)+" as a whole ("+types.ExprString(x.Lhs[i])+" = ...): its atomic counters / locks are written with plain, non-atomic stores while other goroutines use them")
+						}
 					}
 				}
 			case *ast.ValueSpec:
